@@ -1,7 +1,8 @@
 (* Props/C16.v — Recovered runs produce the same outputs as failure-free runs.
    Only statements here; every proof is [exact <lemma of Recovery/Proofs.v>]. *)
 From Coq Require Import List NArith ZArith Lia.
-From SF Require Import Base.Str Recovery.Model Recovery.Proofs Recovery.Budget Recovery.BudgetSync Recovery.Corr Retry.Model.
+From Coq Require Import Sorting.Sorted Sorting.Permutation.
+From SF Require Import Base.Str Tags.Model Recovery.Model Recovery.Proofs Recovery.Budget Recovery.BudgetSync Recovery.InjectModel Recovery.InjectProofs Recovery.Corr Retry.Model.
 Import ListNotations.
 Local Open Scope string_scope. Local Open Scope list_scope.
 
@@ -91,6 +92,24 @@ Theorem C16_budget_matches_retry_counter : forall (val : Type) (name : nat -> st
    represents val name (fst (synchronize (Some L) vs (plain (map name S)))) m').
 Proof. exact budget_matches_retry_counter. Qed.
 
+(* _inject_tokens (after fix 62ae2d6), one port of a recovery workflow: what is put is exactly the available tokens of the
+   port, each once, in the numeric depth-first order of their tags (0.9 before 0.10; C33's order), strictly increasing -- so
+   a step of the recovery workflow sees the regenerated inputs in the order a failure-free run delivers them; and the
+   exception is raised exactly when two available tokens carry the same tag.  For every list of tokens, any tags, any
+   length. *)
+Theorem C16_inject_order : forall l ids,
+  inject l = Some ids ->
+  exists s, ids = map pid s /\ Permutation (filter pavail l) s /\ StronglySorted tle s /\ NoDup (map ptag s) /\
+            (forall pre a mid b post, s = pre ++ a :: mid ++ b :: post -> (compare_tags (ptag a) (ptag b) < 0)%Z).
+Proof. exact inject_spec. Qed.
+Theorem C16_inject_error_iff_duplicate_tag : forall l,
+  inject l = None <-> ~ NoDup (map ptag (filter pavail l)).
+Proof. exact inject_error_iff. Qed.
+Example C16_inject_example :
+  inject [pt 1 [0; 10] true; pt 2 [0; 2] true; pt 3 [0; 9] false; pt 4 [0] true; pt 5 [0; 9] true]%N = Some [4; 2; 5; 1]%N /\
+  inject [pt 1 [0; 1] true; pt 2 [0; 1] true]%N = None /\ inject [pt 1 [0; 1] true; pt 2 [0; 1] false]%N = Some [1%N].
+Proof. vm_compute. repeat split; reflexivity. Qed.
+
 (* REFUTED half of the text: "each job fails fewer times than the retry limit => the run completes".
    The retry counter counts re-executions, not failures: in a 3-job pipeline with limit 2 where /s1 and /s2
    each fail once with loss of data, the second rollback must re-execute /s0 a third time and the manager
@@ -158,3 +177,5 @@ Print Assumptions C16_completes_partial.
 Print Assumptions C16_rollback_recovers.
 Print Assumptions C16_budget_is_tight.
 Print Assumptions C16_budget_matches_retry_counter.
+Print Assumptions C16_inject_order.
+Print Assumptions C16_inject_error_iff_duplicate_tag.
